@@ -54,6 +54,22 @@ def _gen_cfgs(seed, n):
     return _graphs(seed, n, allow_blocking=False, allow_buffer=False, allow_advance=False, allow_phase_sched=False)
 
 
+_REPORTED = set()
+
+
+def _rex_raised(err):
+    """If the deepest frame of the traceback that belongs to rex or to the harness lies in rex: what was raised and where; else None."""
+    repo = os.environ.get("REX_REPO", "/repo")
+    roots = {repo.rstrip("/") + "/rex/", os.path.realpath(repo).rstrip("/") + "/rex/"}
+    frames = re.findall(r'File "([^"]+)", line (\d+), in (\S+)', err)
+    own = [f for f in frames if any(f[0].startswith(r) for r in roots) or "/harness/" in f[0]]
+    if not own or "/harness/" in own[-1][0]:
+        return None
+    lines = [ln for ln in err.strip().splitlines() if ln and not ln.startswith(" ")]
+    exc = next((ln.split(":")[0] for ln in reversed(lines) if re.match(r"^[A-Za-z_.]+(Error|Exception|Exit|Interrupt)\b", ln)), "Exception")
+    return dict(file=own[-1][0], line=int(own[-1][1]), func=own[-1][2], exc=exc)
+
+
 def _collect(rep, results, key):
     out = []
     for res in results:
@@ -61,6 +77,16 @@ def _collect(rep, results, key):
         if not res.get("ok"):
             if res.get("timeout"):
                 rep.note(f"job {job.get('id')} exceeded its wall-clock budget (skipped)")
+                continue
+            rr = _rex_raised(res.get("error", ""))
+            if rr is not None:
+                # the exception comes out of rex itself (deepest own frame under <repo>/rex/) on a graph and call history of the supported class:
+                # rex refused / crashed on a legal use - a violation of the property under check, not a failure of the machinery
+                if (job.get("id"), "raised") not in _REPORTED:
+                    _REPORTED.add((job.get("id"), "raised"))
+                    rep.violation(dict(kind="rex_raised", exc=rr["exc"], where=rr["func"]),
+                                  dict(kind="rex_raised", job={k: job[k] for k in job if k in ("id", "cfg", "seed", "mode", "prune", "modes", "source")}, error=res.get("error", "")[-3000:]),
+                                  text=f"job {job.get('id')}: rex raised {rr['exc']} in {rr['func']} ({rr['file']}:{rr['line']}) on a supported graph and legal call history")
                 continue
             raise common.MachineryError(f"job {job.get('id')} failed:\n{res.get('error', '')[-3000:]}")
         for t in res.get(key, []):
@@ -293,7 +319,7 @@ def c08(tier, seed):
         ms = [ALL_MODES[(i * 2 + j) % 6] + [{"extra_padding": pads[(i + j) % 3]}] for j in range(2 if quick else 6)]
         return ms
 
-    jobs = _run_jobs_for(seed + 200, 8 if quick else 20, "c08r", runs_of, modes_of, fam=("same_generation_pair", "slow_producer", "fast_node", "same_generation_pair", "slow_side_node"))  # positions 0 and 3 run with extra_padding 0; position 2 compiles TOPOLOGICAL (uniform scan path, > 10 slots of a kind)
+    jobs = _run_jobs_for(seed + 200, 9 if quick else 21, "c08r", runs_of, modes_of, fam=("same_generation_pair", "slow_producer", "fast_node", "same_generation_pair", "slow_side_node", "shadow_clash"))  # positions 0 and 3 run with extra_padding 0; position 2 compiles TOPOLOGICAL (uniform scan path, > 10 slots of a kind)
     jobs += _run_jobs_for(seed + 250, 4 if quick else 12, "c08g", runs_of, modes_of, source="generate")
     results, run_items, vs, metas = _run_campaign(rep, jobs, {"C08"})
     # user-supplied buffer sizes: every admissible size must work, a size below the minimum must be refused by rex
@@ -381,6 +407,13 @@ def c09(tier, seed):
     run_items = _collect(rep, results, "runs")
     _judge(rep, st_items, "RexSchedule", SCHED_CLAUSE_PROPS, {"C09"}, "schedule")
     vs = _judge(rep, run_items, "RexRun", RUN_CLAUSE_PROPS, {"C09"}, "run")
+    # runs made right after init(starting_eps, starting_step): WHICH steps execute is the starting index itself ("the starting step given to init()
+    # is exactly what the steps see"), so for these traces the ExactlyOnce clauses are C09's as well
+    for (job, res, t), v in zip(run_items, vs):
+        if v["verdict"] != "accept" and "/init" in t["id"] and v["clause"].startswith("ExactlyOnce") and not (RUN_CLAUSE_PROPS.get(v["clause"], set()) & {"C09"}):
+            rep.violation(dict(clause=v["clause"], kind="init_run"),
+                          dict(kind="run", job={k: job[k] for k in job if k not in ("runs", "histories", "api_histories")}, trace_id=t["id"], verdict=v),
+                          text=f"run trace {t['id']} (first call after init at partition {t['step0']}) rejected by RexRun clause {v['clause']}: {v['detail'][:600]}")
     npairs = 0
     for res in results:
         if not res.get("ok"):
